@@ -141,6 +141,9 @@ class SimLoop(base_events.BaseEventLoop):
         pass
 
     # -- executor interface used by wires ---------------------------------------
+    async def asleep(self, t):
+        await sleep_until(self, t)
+
     def wake(self, fut):
         if not fut.done():
             fut.set_result(None)
@@ -288,8 +291,14 @@ class _ShieldTracker:
         S = sut.synchronization.AsyncShieldCancellation
         oe, ox = S.__enter__, S.__exit__
 
+        def _cur():
+            try:
+                return asyncio.current_task()
+            except RuntimeError:   # not under asyncio (trio executor)
+                return None
+
         def enter(self):
-            t = asyncio.current_task()
+            t = _cur()
             lp = t._loop if t is not None else None
             if isinstance(lp, SimLoop):
                 n = t.get_name()
@@ -297,7 +306,7 @@ class _ShieldTracker:
             return oe(self)
 
         def exit_(self, *a):
-            t = asyncio.current_task()
+            t = _cur()
             lp = t._loop if t is not None else None
             if isinstance(lp, SimLoop):
                 n = t.get_name()
@@ -319,8 +328,11 @@ async def sleep_until(loop, t):
 
 
 async def adrive(world, wire, gen):
-    """Run a wire-operation generator on the SimLoop."""
-    loop = world.executor
+    """Run a wire-operation generator on the async executor of this run."""
+    ex = world.executor
+    if not isinstance(ex, SimLoop):
+        return await ex.drive(wire, gen)
+    loop = ex
     try:
         until = next(gen)
         while True:
